@@ -219,12 +219,12 @@ theorem stepS_sound (ed : Ed) (x : Int × Ed) (h : stepS ed = some x) : exStep e
           split at h
           · cases h
           · rename_i r e hcmd
-            have hs := cmdS_sound 36 _ _ _ _ _ _ _ hcmd
-            have hx := exCommand_single 38 { ed with input := rest, out := [], msg := [], calls := 0, fired := 0 }
+            have hs : runCmd (FUEL - 2) _ _ _ _ _ _ = _ := cmdS_sound (FUEL - 4) _ _ _ _ _ _ _ hcmd
+            have hx := exCommand_single (FUEL - 2) { ed with input := rest, out := [], msg := [], calls := 0, fired := 0 }
               edT ln (exLoc ln).1 (exLoc ln).2 (exCmd (exLoc ln).2).1 (exCmd (exLoc ln).2).2 a
               (exArg (exCmd (exLoc ln).2).2 a).1 (exArg (exCmd (exLoc ln).2).2 a).2
               txt hd hc.1 hc.2 rfl rfl hidx rfl hT
-            have hF : FUEL = 38 + 2 := rfl
+            have hF : exCommand FUEL = exCommand ((FUEL - 2) + 2) := rfl
             rw [hF, hx, hs]
             simp only [Option.map_some]
             exact h
@@ -268,9 +268,9 @@ theorem initS_sound (ed : Ed) (files : List Bytes) (x : Int × Ed) (h : initS ed
     exInit ed files = some x := by
   unfold initS at h
   unfold exInit
-  have hF : FUEL = 39 + 1 := rfl
+  have hF : ecEdit FUEL = ecEdit ((FUEL - 1) + 1) := rfl
   rw [hF]
-  exact editS_sound 39 ed _ _ x h
+  exact editS_sound (FUEL - 1) ed _ _ x h
 
 /-- a whole session: start the editor (whose input queue `ed0.input` holds the script) on `files`, run
     `n` rounds of the `ex()` loop -/
@@ -328,23 +328,23 @@ theorem exTxt_none (ed : Ed) (a : Bytes) (h1 : ¬ (a.headD 0 = 114 ∧ a.getD 1 
     command word, no address and no argument, followed by the bookkeeping of `ex_command` and `ex()` -/
 theorem exStep_quit (ed ed' : Ed) (r : Int) (ln : Bytes) (rest : List Bytes) (hin : ed.input = ln :: rest)
     (hln : ln ∈ quitWords) (h : exStep ed = some (r, ed')) :
-    ∃ e1, runCmd 38 { ed with input := rest, out := [], msg := [], calls := 0, fired := 0 } "ec_quit" [] ln [] none
+    ∃ e1, runCmd (FUEL - 2) { ed with input := rest, out := [], msg := [], calls := 0, fired := 0 } "ec_quit" [] ln [] none
         = some (r, e1) ∧
       ed' = { (e1.modifiedAt 0).2 with regs := (e1.modifiedAt 0).2.regs.put 58 ln 1, faults := [] } := by
   unfold exStep at h
   rw [hin] at h
   simp only [] at h
-  have hF : FUEL = 38 + 2 := rfl
+  have hF : exCommand FUEL = exCommand ((FUEL - 2) + 2) := rfl
   have key : ∀ (l1 l2 a : Bytes), ln.length < Gen.EXLEN → ln.isEmpty = false → exLoc ln = ([], l1) → exCmd l1 = (ln, l2) →
       exIdx ln = some (a, "ec_quit") → exArg l2 a = ([], []) →
       exTxt { ed with input := rest, out := [], msg := [], calls := 0, fired := 0 } [] a =
         ((none, []), { ed with input := rest, out := [], msg := [], calls := 0, fired := 0 }) →
-      ∃ e1, runCmd 38 { ed with input := rest, out := [], msg := [], calls := 0, fired := 0 } "ec_quit" [] ln [] none
+      ∃ e1, runCmd (FUEL - 2) { ed with input := rest, out := [], msg := [], calls := 0, fired := 0 } "ec_quit" [] ln [] none
           = some (r, e1) ∧
         ed' = { (e1.modifiedAt 0).2 with regs := (e1.modifiedAt 0).2.regs.put 58 ln 1, faults := [] } := by
     intro l1 l2 a hlen hne h1 h2 h3 h4 h5
-    rw [hF, exCommand_single 38 _ _ ln [] l1 ln l2 a [] [] none "ec_quit" hlen hne h1 h2 h3 h4 h5] at h
-    cases hr : runCmd 38 { ed with input := rest, out := [], msg := [], calls := 0, fired := 0 } "ec_quit" [] ln [] none with
+    rw [hF, exCommand_single (FUEL - 2) _ _ ln [] l1 ln l2 a [] [] none "ec_quit" hlen hne h1 h2 h3 h4 h5] at h
+    cases hr : runCmd (FUEL - 2) { ed with input := rest, out := [], msg := [], calls := 0, fired := 0 } "ec_quit" [] ln [] none with
     | none => rw [hr] at h; cases h
     | some p =>
       obtain ⟨r1, e1⟩ := p
